@@ -9,7 +9,7 @@ dimensions, inputs placed near 2^31 and 2^32 of the global counter by assigning 
 process; every call is also executed alone in a freshly forked child; the two result records (return value / exception
 class, diagnostics with path-line-column, document, supported-analysis verdict) must be equal."""
 import json, os, random
-import vf, docgen, xmlgen
+import vf, docgen, xmlgen, lexconf
 
 SC = "int i; clock x; chan c;"
 XML_OK = xmlgen.render_xml({"decl": "int i; clock x;", "templates": [{"name": "T", "locations": [{"id": "id0", "name": "A", "inv": "x <= 3"}], "init": "id0",
@@ -253,6 +253,8 @@ def run(tier):
                     k, j["abstract"][k], j["abstract"], d[0][0], json.dumps(d[0][1])[:160], json.dumps(d[0][2])[:160]),
                     {"abstract": j["abstract"], "calls": j["calls"], "call_index": k, "differences": d})
     nb = qbuilder_part(c, quick, rnd)
+    # the scanner's start condition is process-global: whatever the text (open comments included) the scan must end in INITIAL (LexMC!LeavesInitial on the extracted rules; the real scanner probed after every text)
+    nb += lexconf.run(c, quick, "C15", only=("comment", "all", "all_query"))
     c.cov["traces_validated_against_impl"] = len(jobs) + nb
     c.cov["evaluations"] = ncalls + nb
     c.cov["distinct_nontrivial"] = len(jobs)
